@@ -65,6 +65,10 @@ PROPS = {
         'verus': ['comb', 'choice', 'nodes', 'repchk'],
         'expanded': True,
         'kani': [],
+        'native': [
+            ('nb_stackmodel', 'nb_stack_depth1', 'all op sequences of length<=8 over {push(a),push(b),pop,snapshot,clear_snapshot,restore}, snapshot nesting depth<=1', 'q'),
+            ('nb_stackmodel', 'nb_stack_nested', 'all op sequences of length<=7, arbitrary nesting', 'q'),
+        ],
         'assumptions': ['pest::Stack behaves as the snapshot-stack model (R4); checked within a bound by k_stackmodel'],
     },
     'C06': {
